@@ -94,6 +94,8 @@ def cases(tier, seed):
                 sp = 'e' + ''.join(pm)
                 progs.append((f'a.{sp} * b + a', 2))
             progs.append((f'a.e{w[1]}{w[2]}{w[0]} * a.e{w[2]}{w[0]}{w[1]} + b', 2))
+        # grade selections spelled in any order / with repetitions
+        progs += [('a.grade(2, 1) + b', 2), ('a.grade((1, 0)) * b', 2), ('(a * b).grade(1, 1)', 2), ('a.grade(2, 0, 1) - b.grade(0)', 2)]
         progs.append(('a.norm() + 0', 1)); progs.append(('a.normalized() * 1', 1))       # same, on mixed-grade operands (see below)
         # depth 2
         d2 = []
